@@ -497,7 +497,7 @@ impl Aml for GenericErrorStatus {
 /// Platform Error Record."
 #[derive(Default)]
 pub struct GenericErrorData {
-    pub section_type: u16,
+    pub section_type: [u8; 16],
     pub severity: ErrorSeverity,
     pub revision: u16,
     pub validation: u8,
@@ -532,7 +532,7 @@ impl GenericErrorData {
 
 impl Aml for GenericErrorData {
     fn to_aml_bytes(&self, sink: &mut dyn AmlSink) {
-        sink.word(self.section_type);
+        sink.vec(&self.section_type);
         sink.dword(self.severity as u32);
         sink.word(self.revision);
         sink.byte(self.validation);
